@@ -139,6 +139,21 @@ def rule_mark(R):
                 elif si["edges"].get("Err") is not None:
                     # `if let Err(..) = result` : the other edge is the Ok edge
                     p_edges.append((si["bb"], si["otherwise"]))
+            if hcode.name in walkers:
+                # the property loop runs in the handshake itself (or in a helper that was inlined): "all properties
+                # accepted" is the exhaustion edge of that loop -- every error inside leaves before reaching it
+                for a in arms.values():
+                    if a["body"].name != hcode.name:
+                        continue
+                for nx in [c2 for c2 in hcode.calls.values() if c2.bb in hcode.reachable and c2.is_("core::iter::Iterator::next")]:
+                    for sbb in hcode.switches:
+                        si2 = hcode.switch_info(sbb)
+                        if si2["enum"] == "core::option::Option" and any(a2[0] == "call" and a2[1] == nx.bb for a2 in phi_alts(peel(si2["subject"]))) \
+                                and si2["edges"].get("None") is not None and si2["edges"].get("Some") is not None:
+                            # is this the loop that contains the Property match?
+                            inside = hcode.reach([si2["edges"]["Some"]], avoid=[nx.bb])
+                            if any(hcode.switch_info(b2)["enum"] == "properties::Property" for b2 in hcode.switches if b2 in inside):
+                                p_edges.append((sbb, si2["edges"]["None"]))
             ok2 = bool(p_edges) and hcode.must_pass([0], [c.bb], via_edges=p_edges)[0]
             R.ob("mark/after-properties", ok2,
                  "session_present is set only after every CONNACK property was accepted (a garbled CONNACK does not "
